@@ -417,7 +417,7 @@ fn run_one(cx: &mut Ctx, c: &Value) {
             "complex" => { let (k, i, s, t) = c13_ser::parse_case(c); c13_ser::complex(cx, k, &i, &s, &t) }
             "smart_ptr" => { let (k, i, s, t) = c13_ser::parse_case(c); c13_ser::smart_ptr(cx, k, &i, &s, &t) }
             "versioning" => { let (k, i, s, t) = c13_ser::parse_case(c); c13_ser::versioning(cx, k, &i, &s, &t) }
-            "reader" => { let (k, d, cfg, ops) = c13_rd::parse_reader(c); c13_rd::reader(cx, k, &d, &cfg, &ops, true) }
+            "reader" => { let (k, d, cfg, ops) = c13_rd::parse_reader(c); c13_rd::reader_g(cx, k, &d, c13_rd::parse_gen(c), &cfg, &ops, true) }
             "writer" => { let (k, _, cfg, ops) = c13_rd::parse_reader(c); c13_rd::writer(cx, k, &cfg, &ops) }
             _ => {}
         }
@@ -528,13 +528,18 @@ fn run_new_cells(cx: &mut Ctx, args: &Args) {
         if k % 2 == 1 { c13_ser::versioning(cx, k / 2, &vints, &ss, &tail); }
     }
     // readers and writers under arbitrary histories
-    for k in 0..(if t { 60000 } else { 4400 }) {
+    for k in 0..(if t { 70000 } else { 5200 }) {
         let mut r = cx.rng.clone();
         let (data, cfg, ops) = c13_rd::gen_reader_case(&mut r, k);
         cx.rng = r;
         c13_rd::reader(cx, k, &data, &cfg, &ops, false);
     }
-    for k in 0..(if t { 20000 } else { 1500 }) {
+    // big inputs, preset configurations, thresholds far from the small cases (deterministic family)
+    for (kind, gen, cfg, ops) in c13_rd::big_reader_cases(t) {
+        let data = c13_rd::gen_data(gen.0, gen.1, gen.2);
+        c13_rd::reader_g(cx, kind, &data, Some(gen), &cfg, &ops, false);
+    }
+    for k in 0..(if t { 30000 } else { 2400 }) {
         let mut r = cx.rng.clone();
         let (cfg, ops) = c13_rd::gen_writer_case(&mut r, k);
         cx.rng = r;
